@@ -805,6 +805,14 @@ def round2_programs(dev):
                 {"op": "distribute", "src": 1, "col": 1, "dst": 0, "dw": L([(1, 0)]), "vol": 2000001, "label": "20000.01"},
                 {"op": "transfer", "src": 1, "sw": L([(0, 0)]), "dst": 0, "dw": L([(0, 1)]), "vols": S(1234567), "label": "12345.67", "wash": 1}]
     progs.append(h)
+    # many steps that are smaller than the resolution of a float16 table at the fill level of the well (unit = 1/4 uL):
+    # every step counts, the fifth one does not fit any more
+    lws = [gen.mk_plate("plate", 1, 3, 0, 2404, [2400, 2400, 0]), gen.mk_trough("trough", 4, 1, 2396, 4000, [2400])]
+    lws[0]["init_dtype"] = "float16"
+    h = _hdr("round2/float16-small-steps", dev, lws, wlmax=40, unit=Fraction(1, 4), flags={"comp": False, "norm": False})
+    h["ops"] = [{"op": "dispense", "lw": P, "wells": L([(0, 0)]), "vols": S(1), "label": f"quarter {i + 1}"} for i in range(6)] + \
+               [{"op": "transfer", "src": P, "sw": L([(0, 1)]), "dst": P, "dw": L([(0, 2)]), "vols": S(1), "label": f"move quarter {i + 1}", "wash": "reuse"} for i in range(3)]
+    progs.append(h)
     # empty argument lists: nothing is pipetted, nothing is refused, later operations are unaffected
     prog("empty-lists", lw(), [
         {"op": "add", "lw": P, "wells": L([(0, 1)]), "vols": S(2), "label": "before"},
